@@ -1,7 +1,7 @@
 (* C06 property theorems.  Nothing but statements closed by `exact`, a pin, and
    Print Assumptions.  The driver parses this file's output. *)
 From ZV.Common Require Import Base.
-From ZV.C06 Require Import Model Spec ProofsBasic ProofsScan ProofsRefine.
+From ZV.C06 Require Import Model Spec ProofsBasic ProofsScan ProofsRefine ProofsSmall.
 Open Scope N_scope.
 
 (* normalize_hash never produces a slot marker, whatever the hasher returned *)
@@ -22,6 +22,15 @@ Check std_refines_map :
   forall (h : N -> N) (c : N) (ops : list op),
     pow2cap c -> Forall2 obs_agree (run h (init c) ops) (srun [] ops).
 Print Assumptions std_refines_map.
+
+(* SmallMap: for every hasher of the promoted representation and every history - inline arrays with
+   swap-remove, promotion to ZiporaHashMap::new() when the 9th key arrives, clear demoting again *)
+Theorem smallmap_refines_map :
+  forall (h : N -> N) (ops : list op), Forall2 obs_agree (sm_run h (Small []) ops) (srun [] ops).
+Proof. exact smallmap_refines_map_proof. Qed.
+Check smallmap_refines_map :
+  forall (h : N -> N) (ops : list op), Forall2 obs_agree (sm_run h (Small []) ops) (srun [] ops).
+Print Assumptions smallmap_refines_map.
 
 (* remove_standard's probe loop (no tombstone branch) finds exactly what get_standard's finds *)
 Theorem remove_loop_is_get_loop :
